@@ -534,4 +534,53 @@ def c03_launch_guards(ctx):
     return _r(ctx)
 
 
-RULES = [c03_launch_guards, inputs_converted, c01_setters, c01_init_stores, derived_sync_rule, no_stale, newton_batch, pure, inverted_fresh, no_param_mutation, reset_first, rng_sites]
+def view_pure(ctx):
+    """'the same analysis call repeated returns bit-identical results ... no
+    call changes' the results: plotting is a read.  A view / plot method must
+    not store into an array that is (a view of) the stored results: a local
+    bound to self.data[...] without a copy and then assigned through a mask
+    writes the stored array."""
+    P = ctx.P
+    res = Result('VIEW-PURE', 'view / plot methods do not write into the '
+                 'stored results (masked stores go to copies)')
+    n = 0
+    for f in P.all_funcs():
+        if not (f.name.startswith('view') or f.name.startswith('_plot')):
+            continue
+        n += 1
+        alias = {}
+        stmts = sorted((x for x in ast.walk(f.node)
+                        if isinstance(x, ast.Assign)),
+                       key=lambda x: (x.lineno, x.col_offset))
+        for st in stmts:
+            t = st.targets[0]
+            if isinstance(t, ast.Name):
+                v = st.value
+                root = v
+                while isinstance(root, (ast.Subscript, ast.Attribute)):
+                    root = root.value
+                rooted = isinstance(v, (ast.Subscript, ast.Attribute)) and (
+                    (isinstance(root, ast.Name) and root.id == 'self') or
+                    (isinstance(root, ast.Name) and root.id in alias))
+                if rooted:
+                    alias[t.id] = unparse(v)
+                else:
+                    alias.pop(t.id, None)
+            elif isinstance(t, ast.Subscript) and isinstance(t.value, ast.Name) \
+                    and t.value.id in alias:
+                res.saw(f)
+                res.fail(ctx.finding(
+                    'VIEW-PURE', f, st,
+                    f'{f.qual} assigns through {unparse(t)[:40]} where '
+                    f'{t.value.id} is {alias[t.value.id][:60]} (no copy): '
+                    f'plotting writes into the stored results, so .data '
+                    f'differs before and after view() and a derived RMS '
+                    f'becomes nan on a lens with a clipping aperture',
+                    construct=f'{f.qual} writes stored data'))
+    res.ok(f'{n} view / plot methods examined')
+    if n < 10:
+        raise AnalysisError(f'VIEW-PURE: only {n} view methods found')
+    return res
+
+
+RULES = [view_pure, c03_launch_guards, inputs_converted, c01_setters, c01_init_stores, derived_sync_rule, no_stale, newton_batch, pure, inverted_fresh, no_param_mutation, reset_first, rng_sites]
